@@ -63,9 +63,10 @@ fn __verif_n_c14_mutations() {
             if let Ok(s) = std::fs::read_to_string(root.join(f)) { all.push((format!("sample:{}", f.rsplit('/').next().unwrap()), s)); }
         }
     }
+    if thorough { for (n, s) in sierra_mutants::e2e_corpus() { all.push((format!("e2e-sample:{n}"), s)); } }
     for (name, src) in all {
         let Ok(p) = ProgramParser::new().parse(&src) else { continue };
-        let ms = if name.starts_with("sample:") {
+        let ms = if name.starts_with("e2e-sample:") { sierra_mutants::sample_mutants(&p, 120, &mut seed) } else if name.starts_with("sample:") {
             // a seeded sample of 2500 mutants, built lazily (the full space of a big program does not fit in memory)
             let n = count_mutants(&p);
             let mut pick = std::collections::HashSet::new();
